@@ -57,7 +57,7 @@ def case_ops(trace_lines, caseid):
             m = re.search(r"fibm=(\d+)", l)
             if m and int(m.group(1)) > 0:
                 hdr.append("fibm %d" % int(m.group(1)))
-        if on and (l.startswith("ev ") or l == "mark frames"):
+        if on and (l.startswith("ev ") or l.startswith("mark ")):
             ops.append(l)
     return hdr, ops
 
